@@ -82,6 +82,22 @@ pub fn init_tls(cells: Vec<(usize, usize)>) {
         // a margin covers the adjacent registration-state byte of cells that have destructors
         ex.push((a as isize - tp as isize - 16, (a + n) as isize - tp as isize + 16));
     }
+    // the standard library keeps a per-thread hash seed (bumped by every `RandomState::new()`); a
+    // library that merely creates a HashMap does not keep state of its own: learn where that cell is
+    // by creating two seeds here and seeing which bytes move, and leave it out of the comparison
+    if all_inside {
+        let _ = std::collections::hash_map::RandomState::new();
+        // SAFETY: the executable's TLS block of the current thread, [tp - size, tp)
+        let before: Vec<u8> = unsafe { std::slice::from_raw_parts((tp - size) as *const u8, size) }.to_vec();
+        let _ = std::collections::hash_map::RandomState::new();
+        let after: &[u8] = unsafe { std::slice::from_raw_parts((tp - size) as *const u8, size) };
+        for i in 0..size {
+            if before[i] != after[i] && !ex.iter().any(|(a, b)| (i as isize - size as isize) >= *a && (i as isize - size as isize) < *b) {
+                let rel = i as isize - size as isize;
+                ex.push((rel - 24, rel + 24));
+            }
+        }
+    }
     // if the layout assumption (executable's block directly below the thread pointer) does not hold, do not scan
     let _ = TLS.set(if all_inside { (size, ex) } else { (0, Vec::new()) });
 }
